@@ -922,6 +922,12 @@ impl Xot {
         // now insert the replacing node
         if let Some(previous_node) = previous_node {
             self.insert_after(previous_node, replacing_node)?;
+            // if the replacing text was merged into the previous text node, that
+            // node may now be next to the text node that followed the replaced node
+            self.remove_consolidate_text_nodes(
+                Some(previous_node),
+                self.next_sibling(previous_node),
+            );
         } else {
             self.prepend(parent, replacing_node)?;
         }
